@@ -51,6 +51,8 @@ THEOREMS = [
     "LC.end_has_result_iff",
     "LC.default_action_type",
     "LC.bind_keys",
+    "LC.bind_demote",
+    "LC.bindingAgrees_of_posOnlyRespected",
     "LC.stacked_shape",
     "LC.stacked_both_log_bound_args",
 ]
